@@ -513,6 +513,9 @@ func genSweepRecv(r *rand.Rand) (string, string) {
 		if r.Intn(3) == 0 {
 			sprinklePolicies(r, &c)
 		}
+		if r.Intn(4) == 0 && c.Xs[0].T != 'K' {
+			c.Cfg.Opt |= fNNest
+		}
 		return c.String(), "cond"
 	}
 	nextLeaf = 0
@@ -527,6 +530,12 @@ func genSweepRecv(r *rand.Rand) (string, string) {
 	}
 	if r.Intn(3) == 0 {
 		st.Cfg.Mtx = true
+	}
+	if r.Intn(4) == 0 {
+		st.Cfg.Opt |= fNNest // every option bit must survive a read-only round trip
+	}
+	if r.Intn(5) == 0 {
+		st.Cfg.Opt |= fNeg | fFwd
 	}
 	return st.String(), "stack"
 }
